@@ -1,7 +1,7 @@
 (** Properties_C16.v — C16: wire primitives round-trip exactly and reject what they
     cannot represent.  Statements only; each is closed by [exact] of a lemma proved in
     the *Proofs.v files. *)
-From GW Require Import Base Wire WireProofs Civil CivilSweep CivilProofs Quote Utf8Proofs QuoteProofs Href HrefProofs.
+From GW Require Import Base Wire WireProofs Civil CivilSweep CivilProofs CivilProofs2 Quote Utf8Proofs QuoteProofs Href HrefProofs.
 Local Open Scope Z_scope.
 
 (** ** Depth (0, 1, infinity) *)
@@ -128,12 +128,21 @@ Theorem C16_httpdate_never_panics : forall s, time_unmarshal s <> Panic.
 Proof. exact time_unmarshal_never_panics. Qed.
 Print Assumptions C16_httpdate_never_panics.
 
-(** rejection side, except the listed finding C16-httpdate-lenient ... *)
-Theorem C16_httpdate_rejects_except_lenient : forall s t ns,
+(** every IMF-fixdate of RFC 7231 7.1.1.1 (the form a sender must generate) is accepted
+    with the instant it denotes and no sub-second part *)
+Theorem C16_httpdate_accepts_imf : forall s t, den_imf s = Some t -> time_unmarshal s = Ok (t, 0).
+Proof. exact time_accepts_imf. Qed.
+Print Assumptions C16_httpdate_accepts_imf.
+
+(** rejection side, except the listed finding C16-httpdate-lenient: an accepted text is an
+    HTTP-date.  PARTIAL: that the instant decoded is the one the text denotes is proved
+    for IMF-fixdate texts (above) and for what the encoder sends, not for the obsolete
+    rfc850-date and asctime-date forms (checked per run only) ... *)
+Theorem C16_httpdate_rejects_except_lenient_partial : forall s t ns,
   kf_httpdate_lenient s (obs_of (time_unmarshal s)) = false ->
   time_unmarshal s = Ok (t, ns) -> exists t', http_den s = Some t'.
 Proof. exact time_rejects_except_lenient. Qed.
-Print Assumptions C16_httpdate_rejects_except_lenient.
+Print Assumptions C16_httpdate_rejects_except_lenient_partial.
 
 (** ... which is real *)
 Theorem C16_httpdate_rejects_refuted : exists s v,
@@ -172,6 +181,15 @@ Theorem C16_etag_roundtrip : forall (is_print_hi : N -> bool) b,
   etag_unmarshal (etag_marshal is_print_hi b) = Ok b.
 Proof. exact etag_roundtrip. Qed.
 Print Assumptions C16_etag_roundtrip.
+
+(** the text sent is a double-quoted string literal denoting the tag.  PARTIAL: shown for the
+    lenient grammar (the one the decoder implements); that the text never contains a byte
+    that is not valid UTF-8, hence is also a literal of the strict grammar, is checked per
+    run (etag_rt_spec_ok), not proved *)
+Theorem C16_etag_marshal_in_lenient_grammar_partial : forall (is_print_hi : N -> bool) b,
+  dq_den true (etag_marshal is_print_hi b) = Some b.
+Proof. exact etag_marshal_in_lenient_grammar. Qed.
+Print Assumptions C16_etag_marshal_in_lenient_grammar_partial.
 
 (** strconv.Unquote (strconv.Quote b) = b *)
 Theorem C16_etag_unquote_quote : forall (is_print_hi : N -> bool) b, unquote (quote is_print_hi b) = Some b.
